@@ -163,6 +163,8 @@ fn diff_text(d: &[String]) -> String {
 fn gen_history(rng: &mut Rng, len: usize, bias: u32, undo_redo: u64, flush: u64) -> Vec<Cmd> {
     let mut m = new_model();
     let mut cmds = vec![];
+    // two of three histories use the plain input profile (see `set_plain_inputs`)
+    set_plain_inputs(rng.chance(2, 3));
     // `do ; undo ; redo` probes: right after an operation (more often after one that writes a whole
     // rectangle: autofill, paste, clears, array formulas) the history undoes and redoes it, so that every
     // op kind is regularly undone/redone in the very state it ran in, not only some steps later
@@ -195,6 +197,12 @@ fn gen_history(rng: &mut Rng, len: usize, bias: u32, undo_redo: u64, flush: u64)
                             | Op::RangeClearContents { .. }
                             | Op::RangeClearAll { .. }
                             | Op::SetUserArrayFormula { .. }
+                            | Op::MoveRows { .. }
+                            | Op::MoveColumns { .. }
+                            | Op::InsertRows { .. }
+                            | Op::InsertColumns { .. }
+                            | Op::DeleteRows { .. }
+                            | Op::DeleteColumns { .. }
                     );
                     if rng.chance(if rect { 60 } else { 15 }, 100) {
                         // popped from the back: Undo first, then (often) Redo
@@ -216,6 +224,7 @@ fn gen_history(rng: &mut Rng, len: usize, bias: u32, undo_redo: u64, flush: u64)
         assert_eq!(Cmd::decode(&cmd.encode()).as_ref(), Some(&cmd), "codec round trip");
         cmds.push(cmd);
     }
+    set_plain_inputs(false);
     cmds
 }
 
@@ -316,6 +325,34 @@ fn shape(a: &Ar) -> &'static str {
     }
 }
 
+/// `-over-cse`: the fill target holds cells of a CSE array (the engine clears such arrays first);
+/// `-arrays`: otherwise, some array formula lives on the sheet (fills next to spills re-evaluate them).
+fn fill_qualifier(m: &M, target: &Ar, q: &mut String) {
+    let cse_anchor = |ws: &ironcalc_base::types::Worksheet, r: i32, c: i32| {
+        matches!(ws.cell(r, c), Some(Cell::ArrayFormula { kind: ironcalc_base::types::ArrayKind::Cse, .. }))
+    };
+    let mut over = false;
+    if let Ok(ws) = m.get_model().workbook.worksheet(target.sheet) {
+        for (r, data) in &ws.sheet_data {
+            for (c, cell) in data {
+                if !target.contains(*r, *c) {
+                    continue;
+                }
+                match cell {
+                    Cell::ArrayFormula { kind: ironcalc_base::types::ArrayKind::Cse, .. } => over = true,
+                    Cell::SpillCell { a, .. } if cse_anchor(ws, a.0, a.1) => over = true,
+                    _ => {}
+                }
+            }
+        }
+    }
+    if over {
+        q.push_str("-over-cse");
+    } else if area_has(m, &Ar::new(target.sheet, 1, 1, 64, 64), &|c| matches!(c, Cell::SpillCell { .. } | Cell::ArrayFormula { .. })) {
+        q.push_str("-arrays");
+    }
+}
+
 /// A qualifier derived from the op and the state *before* it runs.
 fn qualifier(m: &M, op: &Op) -> String {
     let wb = &m.get_model().workbook;
@@ -372,6 +409,23 @@ fn qualifier(m: &M, op: &Op) -> String {
                 if ws.cols.iter().any(|c| c.max >= *col && c.min < *col + *count) {
                     q.push_str("-with-col-attrs");
                 }
+            }
+        }
+        Op::AutoFillRows { area, to_row } => {
+            let last = area.row + area.height - 1;
+            let t = if *to_row > last { Ar::new(area.sheet, last + 1, area.col, area.width, *to_row - last) } else { Ar::new(area.sheet, *to_row, area.col, area.width, (area.row - *to_row).max(0)) };
+            fill_qualifier(m, &t, &mut q);
+        }
+        Op::AutoFillColumns { area, to_col } => {
+            let last = area.col + area.width - 1;
+            let t = if *to_col > last { Ar::new(area.sheet, area.row, last + 1, *to_col - last, area.height) } else { Ar::new(area.sheet, area.row, *to_col, (area.col - *to_col).max(0), area.height) };
+            fill_qualifier(m, &t, &mut q);
+        }
+        Op::MoveRows { sheet, .. } | Op::MoveColumns { sheet, .. } | Op::InsertRows { sheet, .. } | Op::InsertColumns { sheet, .. } => {
+            // the known inexact undos of structural edits all involve array formulas on the sheet
+            let all = Ar::new(*sheet, 1, 1, 64, 64);
+            if area_has(m, &all, &|c| matches!(c, Cell::SpillCell { .. } | Cell::ArrayFormula { .. })) {
+                q.push_str("-arrays");
             }
         }
         Op::SetColumnsWidth { sheet, start, end, .. } => {
@@ -650,7 +704,7 @@ fn eval_c01(req: &str) -> ImplOut {
 }
 
 fn gen_c01(ctx: &Ctx, sink: &mut dyn FnMut(String)) {
-    emit_seeds(ctx, "c01", (300, 25), (3000, 60), &[0, 5, 10], sink);
+    emit_seeds(ctx, "c01", (900, 25), (3000, 60), &[0, 5, 10], sink);
 }
 
 pub fn c01_oracle() -> Suite {
@@ -673,9 +727,14 @@ fn run_c02(cmds: &[Cmd], want: Option<&str>) -> Run {
     let mut m = new_model();
     // spec: timeline of snapshots + cursor; kinds[k] is the op that leads from position k to k+1
     let mut timeline: Vec<Snap> = vec![snap_en(&mut m, false)];
-    let mut kinds: Vec<&'static str> = vec![];
+    // (op kind + the qualifier of the state it ran in, like the C01 oracle)
+    let mut kinds: Vec<String> = vec![];
     let mut cursor: usize = 0;
     let mut sigs_seen: BTreeSet<String> = BTreeSet::new();
+    // `-lang`: a language switch happened earlier in this history (recorded texts are re-parsed in the
+    // language active at replay time: finding F03c); kept in the signature so that the known language
+    // effect does not cover a replay defect of the same op kind in histories without a switch
+    let mut lang = "";
     macro_rules! fail {
         ($idx:expr, $sig:expr, $detail:expr) => {{
             let sig: String = $sig;
@@ -695,7 +754,11 @@ fn run_c02(cmds: &[Cmd], want: Option<&str>) -> Run {
                 continue;
             }
             Cmd::Op(op) => {
+                if matches!(op, Op::SetLanguage { lang: l } if l != "en") {
+                    lang = "-lang";
+                }
                 let kind = op.kind();
+                let kq = format!("{}{}", kind, qualifier(&m, op));
                 let d0 = m.verif_history_len();
                 let res = apply(&mut m, op);
                 let d1 = m.verif_history_len();
@@ -707,7 +770,7 @@ fn run_c02(cmds: &[Cmd], want: Option<&str>) -> Run {
                     timeline.truncate(cursor + 1);
                     kinds.truncate(cursor);
                     timeline.push(snap_en(&mut m, false));
-                    kinds.push(kind);
+                    kinds.push(kq);
                     cursor += 1;
                     if d1.1 != 0 {
                         fail!(idx, "c02:new-op-kept-redo".to_string(), format!("after op {} the redo stack has depth {}", op.encode(), d1.1));
@@ -724,7 +787,7 @@ fn run_c02(cmds: &[Cmd], want: Option<&str>) -> Run {
             }
             Cmd::Undo => {
                 if let Err(e) = catch(|| m.undo()) {
-                    let k = if cursor > 0 { kinds[cursor - 1] } else { "nothing" };
+                    let k = if cursor > 0 { kinds[cursor - 1].clone() } else { "nothing".to_string() };
                     fail!(idx, format!("c02:undo-returned-err:{k}"), format!("undo() -> Err({e})"));
                     out.tags.push("c02:aborted:undo-err".into());
                     break;
@@ -732,11 +795,11 @@ fn run_c02(cmds: &[Cmd], want: Option<&str>) -> Run {
                 if cursor > 0 {
                     cursor -= 1;
                     out.checked += 1;
-                    out.tags.push(format!("c02:undo:{}", kinds[cursor]));
+                    out.tags.push(format!("c02:undo:{}", kinds[cursor].split('-').next().unwrap_or("")));
                     let s = snap_en(&mut m, false);
                     if s != timeline[cursor] {
                         let d = snapshot_diff(&timeline[cursor], &s);
-                        fail!(idx, format!("c02:undo:{}:{}", kinds[cursor], first_class(&d)), format!("position {cursor}: recorded vs after undo: {}", diff_text(&d)));
+                        fail!(idx, format!("c02:undo:{}{lang}:{}", kinds[cursor], first_class(&d)), format!("position {cursor}: recorded vs after undo: {}", diff_text(&d)));
                         // the leftover of a wrong undo persists at every earlier position: the timeline is
                         // no longer a valid spec for the rest of this history
                         out.tags.push("c02:aborted:after-mismatch".into());
@@ -748,7 +811,7 @@ fn run_c02(cmds: &[Cmd], want: Option<&str>) -> Run {
             }
             Cmd::Redo => {
                 if let Err(e) = catch(|| m.redo()) {
-                    let k = if cursor < kinds.len() { kinds[cursor] } else { "nothing" };
+                    let k = if cursor < kinds.len() { kinds[cursor].clone() } else { "nothing".to_string() };
                     fail!(idx, format!("c02:redo-returned-err:{k}"), format!("redo() -> Err({e})"));
                     out.tags.push("c02:aborted:redo-err".into());
                     break;
@@ -756,11 +819,11 @@ fn run_c02(cmds: &[Cmd], want: Option<&str>) -> Run {
                 if cursor < kinds.len() {
                     cursor += 1;
                     out.checked += 1;
-                    out.tags.push(format!("c02:redo:{}", kinds[cursor - 1]));
+                    out.tags.push(format!("c02:redo:{}", kinds[cursor - 1].split('-').next().unwrap_or("")));
                     let s = snap_en(&mut m, false);
                     if s != timeline[cursor] {
                         let d = snapshot_diff(&timeline[cursor], &s);
-                        fail!(idx, format!("c02:redo:{}:{}", kinds[cursor - 1], first_class(&d)), format!("position {cursor}: recorded vs after redo: {}", diff_text(&d)));
+                        fail!(idx, format!("c02:redo:{}{lang}:{}", kinds[cursor - 1], first_class(&d)), format!("position {cursor}: recorded vs after redo: {}", diff_text(&d)));
                         out.tags.push("c02:aborted:after-mismatch".into());
                         break;
                     }
@@ -800,7 +863,7 @@ fn eval_c02(req: &str) -> ImplOut {
 }
 
 fn gen_c02(ctx: &Ctx, sink: &mut dyn FnMut(String)) {
-    emit_seeds(ctx, "c02", (300, 25), (3000, 60), &[0, 5, 10], sink);
+    emit_seeds(ctx, "c02", (1200, 25), (3000, 60), &[0, 5, 10], sink);
 }
 
 pub fn c02_oracle() -> Suite {
@@ -869,7 +932,7 @@ fn eval_c27(req: &str) -> ImplOut {
 }
 
 fn gen_c27(ctx: &Ctx, sink: &mut dyn FnMut(String)) {
-    emit_seeds(ctx, "c27", (300, 30), (3000, 80), &[10, 20, 0], sink);
+    emit_seeds(ctx, "c27", (600, 30), (3000, 80), &[10, 20, 0], sink);
 }
 
 pub fn c27_oracle() -> Suite {
@@ -922,11 +985,20 @@ fn lockstep(cmds: &[Cmd]) -> Lock {
     };
     let mut ks = KindStacks::default();
     let mut tags = vec![];
+    let mut lang = "";
     for cmd in cmds {
         if matches!(cmd, Cmd::Flush) {
             continue;
         }
+        if matches!(cmd, Cmd::Op(Op::SetLanguage { lang: l }) if l != "en") {
+            lang = "-lang";
+        }
+        let n_tags = tags.len();
         let label = run_cmd_primary(&mut p, cmd, &mut ks, &mut tags);
+        // discriminating circumstances: the command itself returned Err on the primary (a failed call that
+        // nevertheless changed the primary: C04 family) / a language switch happened earlier (F03c)
+        let failed = tags.len() > n_tags && tags[tags.len() - 1].ends_with(":err");
+        let label = format!("{label}{}{lang}", if failed { "-failed" } else { "" });
         let q = p.flush_send_queue();
         if let Err(e) = catch(|| r.apply_external_diffs(&q)) {
             return Lock::ApplyErr(label, e);
@@ -1029,7 +1101,7 @@ fn eval_c03(req: &str) -> ImplOut {
 }
 
 fn gen_c03(ctx: &Ctx, sink: &mut dyn FnMut(String)) {
-    emit_seeds(ctx, "c03", (300, 25), (3000, 60), &[5, 15, 0], sink);
+    emit_seeds(ctx, "c03", (900, 25), (3000, 60), &[5, 15, 0], sink);
 }
 
 pub fn c03_oracle() -> Suite {
